@@ -4,6 +4,7 @@ import (
 	"fmt"
 	"go/ast"
 	"go/types"
+	"sort"
 	"strings"
 
 	"golang.org/x/tools/go/packages"
@@ -11,8 +12,8 @@ import (
 
 func init() {
 	register(&PropDef{
-		ID:       "C19",
-		Patterns: []string{"./node", "./data"},
+		ID:          "C19",
+		Patterns:    []string{"./node", "./data"},
 		Explanation: "ClassGeneric.Clone shares the *ClassStatement between all instantiations of a generic class. For 'instantiating Box<int> never changes what Box<string> accepts' it is necessary that (SHARED) no method of ClassGeneric mutates anything reachable from the shared statement — no store into its maps or fields and no call of a receiver-mutating method on a value taken from them; (MAP) every instantiation gets its own type-argument map, built from this new-expression's arguments; (PRED) the generic type predicate is not a constant. Which values a given instantiation accepts is value-level and not decided.",
 		Assumptions: []string{
 			"a method is receiver-mutating if some implementation in packages node/data assigns a field of its receiver (directly)",
@@ -21,6 +22,7 @@ func init() {
 		Rules: []RuleDef{
 			{Name: "C19-SHARED", Floor: 2, Doc: "methods of ClassGeneric never mutate objects reachable from the shared class declaration", Run: c19Run},
 			{Name: "C19-MAP", Floor: 2, Doc: "Clone stores the map it is given (not the receiver's) and each caller passes a map freshly built in that call", Run: nop},
+			{Name: "C19-SITE", Floor: 100, Doc: "evaluation methods of AST nodes never store a property or type declaration taken from a value into the node: a store site shared by several instantiations re-reads the declaration from the object each time", Run: c19Site},
 			{Name: "C19-PRED", Floor: 1, Doc: "data.Generic.Is is not a constant predicate", Run: nop},
 		},
 	})
@@ -204,8 +206,24 @@ func c19Run(r *Run) {
 			}
 			return true
 		})
+		ast.Inspect(fd.Body, func(n ast.Node) bool {
+			id, ok := n.(*ast.Ident)
+			if !ok {
+				return true
+			}
+			v, ok := info.Uses[id].(*types.Var)
+			if !ok || v.Pkg() == nil || v.Parent() != v.Pkg().Scope() {
+				return true
+			}
+			if _, basic := v.Type().Underlying().(*types.Basic); basic {
+				return true
+			}
+			found = true
+			r.bad(fk+"#process-state:"+v.Name(), id.Pos(), "uses the package-level variable "+v.Name()+": what an instantiation answers must depend on its own type arguments only, and a process-wide store is shared by every instantiation")
+			return true
+		})
 		if !found {
-			r.ok(fk+"#read-only", fd.Pos(), "does not mutate state reachable from the shared declaration")
+			r.ok(fk+"#read-only", fd.Pos(), "does not mutate state reachable from the shared declaration and uses no process-wide state")
 		}
 	}
 	if nMethods == 0 {
@@ -310,4 +328,94 @@ func c19Run(r *Run) {
 	} else {
 		r.ok(key, is.Pos(), "the predicate depends on its argument")
 	}
+}
+
+// c19Site: for every node type with evaluation methods, the closure of those methods over calls on
+// the same receiver assigns no receiver field whose type is a declaration (data.Property / data.Types).
+func c19Site(r *Run) {
+	npkg := r.pkg("node")
+	if npkg == nil {
+		return
+	}
+	info := npkg.TypesInfo
+	isDecl := func(t types.Type) bool {
+		return isNamed(t, modPath+"/data", "Property") || isNamed(t, modPath+"/data", "Types")
+	}
+	byRecv := map[string]map[string]*ast.FuncDecl{}
+	for _, fd := range funcDecls(npkg) {
+		if tn := recvTypeName(fd); tn != "" {
+			if byRecv[tn] == nil {
+				byRecv[tn] = map[string]*ast.FuncDecl{}
+			}
+			byRecv[tn][fd.Name.Name] = fd
+		}
+	}
+	tns := []string{}
+	for tn := range byRecv {
+		tns = append(tns, tn)
+	}
+	sort.Strings(tns)
+	for _, tn := range tns {
+		ms := byRecv[tn]
+		var work []*ast.FuncDecl
+		for _, n := range []string{"GetValue", "SetValue", "Call", "GetZVal"} {
+			if fd := ms[n]; fd != nil {
+				work = append(work, fd)
+			}
+		}
+		if len(work) == 0 {
+			continue
+		}
+		seen := map[*ast.FuncDecl]bool{}
+		bad := false
+		for len(work) > 0 {
+			fd := work[0]
+			work = work[1:]
+			if seen[fd] || len(fd.Recv.List[0].Names) == 0 {
+				continue
+			}
+			seen[fd] = true
+			recv := info.Defs[fd.Recv.List[0].Names[0]]
+			ast.Inspect(fd.Body, func(n ast.Node) bool {
+				switch x := n.(type) {
+				case *ast.CallExpr:
+					if se, ok := ast.Unparen(x.Fun).(*ast.SelectorExpr); ok {
+						if id, ok := ast.Unparen(se.X).(*ast.Ident); ok && info.Uses[id] == recv {
+							if h := ms[se.Sel.Name]; h != nil {
+								work = append(work, h)
+							}
+						}
+					}
+				case *ast.AssignStmt:
+					for _, l := range x.Lhs {
+						se, ok := ast.Unparen(l).(*ast.SelectorExpr)
+						if !ok {
+							continue
+						}
+						id, ok := ast.Unparen(se.X).(*ast.Ident)
+						if !ok || info.Uses[id] != recv {
+							continue
+						}
+						if t := info.TypeOf(se); t != nil && isDecl(t) {
+							bad = true
+							r.bad("node.("+tn+")#remembers:"+se.Sel.Name, x.Pos(), "during evaluation the node stores a "+types.TypeString(t, func(p *types.Package) string { return p.Name() })+" in its own field "+se.Sel.Name+": the AST node is shared by every object that reaches this site, so one instantiation's declaration is later applied to another")
+						}
+					}
+				}
+				return true
+			})
+		}
+		if !bad {
+			r.ok("node.("+tn+")#stateless-site", ms[firstKey(ms)].Pos(), "evaluation methods keep no declaration in the node")
+		}
+	}
+}
+
+func firstKey(m map[string]*ast.FuncDecl) string {
+	ks := []string{}
+	for k := range m {
+		ks = append(ks, k)
+	}
+	sort.Strings(ks)
+	return ks[0]
 }
